@@ -93,6 +93,13 @@ func (r *reassembler) process(first, last uint16, more bool, vv buffer.Vectorise
 		heap.Push(&r.heap, fragment{offset: first, vv: vv.Clone(nil)})
 		consumed = vv.Size()
 		r.size += consumed
+	} else {
+		// A fragment that filled no hole (e.g. a duplicate) cannot
+		// complete the packet. Return before the completeness check: a
+		// concurrent goroutine may already have reassembled the packet
+		// and emptied the heap without having released r yet, and
+		// reassembling an empty heap would panic.
+		return buffer.VectorisedView{}, false, consumed, nil
 	}
 	// Check if all the holes have been deleted and we are ready to reassamble.
 	if r.deleted < len(r.holes) {
